@@ -514,10 +514,15 @@ func Solve(query string, scratchDir, name string, timeoutS int, getValues []stri
 		return SolveResult{Status: "unknown", Model: err.Error()}
 	}
 	res := SolveResult{}
+	// a short solo attempt by the fastest solver decides the easy majority; everything else
+	// goes to the race at once
 	quick := timeoutS
-	if quick > 4 {
-		quick = 4
+	if quick > 1 {
+		quick = 1
 	}
+	isReach := strings.Contains(name, "reach") || strings.HasSuffix(name, ".continues") || strings.Contains(name, "vacuity") || strings.HasSuffix(name, ".before")
+	// (reachability guards: a contradiction shows at once; a model of a nonlinear state may not
+	// be found at all, and the guard is then inconclusive)
 	st, model, el := runSolver(solvers[0], file, quick)
 	res.Tried = append(res.Tried, fmt.Sprintf("%s:%s:%.2fs", solvers[0].Name, st, el))
 	if st == "error" {
@@ -534,11 +539,9 @@ func Solve(query string, scratchDir, name string, timeoutS int, getValues []stri
 		st, m string
 		el    float64
 	}
-	isReach := strings.Contains(name, "reach") || strings.HasSuffix(name, ".continues") || strings.Contains(name, "vacuity") || strings.HasSuffix(name, ".before")
 	racers := solvers
 	if isReach {
 		// reachability guards are inconclusive when undecided: a short second opinion only
-		racers = solvers[1:]
 		if timeoutS > 3 {
 			timeoutS = 3
 		}
